@@ -445,6 +445,10 @@ def library_spellings(tree, stats):
                         gens = [ast.comprehension(target=ast.Name(id="_s", ctx=ast.Store()), iter=src, ifs=[], is_async=0),
                                 ast.comprehension(target=ast.Name(id="_t", ctx=ast.Store()), iter=ast.Name(id="_s", ctx=ast.Load()), ifs=[], is_async=0)]
                     return loc(ast.ListComp(elt=ast.Name(id="_t", ctx=ast.Load()), generators=gens), c)
+            if isinstance(f, ast.Attribute) and f.attr == "get" and len(c.args) == 2 and not c.keywords and isinstance(c.args[1], ast.Constant) and c.args[1].value is None:
+                bump("get(k, None)")
+                c.args = c.args[:1]         # d.get(k, None) is d.get(k)
+                return c
             if isinstance(f, ast.Attribute) and f.attr in ("startswith", "endswith") and len(c.args) == 1 and not c.keywords and isinstance(c.args[0], ast.Tuple) \
                     and 2 <= len(c.args[0].elts) <= 4 and _simple_arg(f.value):
                 bump("startswith(tuple)")
@@ -687,11 +691,20 @@ def canon_block(block, fn, counts):
                 del block[i]
                 counts["empty-extend-dropped"] = counts.get("empty-extend-dropped", 0) + 1
                 continue
-            if n_items == 1 and st.value.func.attr == "extend" and isinstance(a0, (ast.List, ast.Tuple)) and not isinstance(a0.elts[0], ast.Starred):
-                st.value.func.attr = "append"
-                st.value.args = [a0.elts[0]]
-                counts["extend-of-one->append"] = counts.get("extend-of-one->append", 0) + 1
+            if st.value.func.attr == "extend" and isinstance(a0, (ast.List, ast.Tuple)) and not any(isinstance(e, ast.Starred) for e in a0.elts) and n_items <= 4:
+                block[i:i + 1] = [loc(ast.Expr(value=ast.Call(func=ast.Attribute(value=copy.deepcopy(st.value.func.value), attr="append", ctx=ast.Load()), args=[e], keywords=[])), st) for e in a0.elts]
+                counts["extend-of-display->appends"] = counts.get("extend-of-display->appends", 0) + 1
                 continue
+        # X += [a, b]  (a list display)  ->  X.append(a) ; X.append(b)
+        if isinstance(st, ast.AugAssign) and isinstance(st.op, ast.Add) and isinstance(st.value, ast.List) and 1 <= len(st.value.elts) <= 4 \
+                and not any(isinstance(e, ast.Starred) for e in st.value.elts) and _simple_arg(st.target):
+            recv = copy.deepcopy(st.target)
+            for n_ in ast.walk(recv):
+                if hasattr(n_, "ctx"):
+                    n_.ctx = ast.Load()
+            block[i:i + 1] = [loc(ast.Expr(value=ast.Call(func=ast.Attribute(value=copy.deepcopy(recv), attr="append", ctx=ast.Load()), args=[e], keywords=[])), st) for e in st.value.elts]
+            counts["+=display->appends"] = counts.get("+=display->appends", 0) + 1
+            continue
         # a, b = x, y   ->   a = x ; b = y     (no starred element, no target read by a later right-hand side)
         if isinstance(st, ast.Assign) and len(st.targets) == 1 and isinstance(st.targets[0], (ast.Tuple, ast.List)) and isinstance(st.value, (ast.Tuple, ast.List)) \
                 and len(st.targets[0].elts) == len(st.value.elts) >= 2 and not any(isinstance(e, ast.Starred) for e in st.targets[0].elts + st.value.elts):
